@@ -76,6 +76,10 @@ def _json_ok_spec(spec):
 
 
 def make_case(i, rng, tier):
+    if rng.random() < 0.01:
+        return {"fam": "bytesfmt", "origin": rng.choice([bytes, bytes, bytearray]), "format": rng.choice(["byte", "binary", "base64", "hex"]),
+                "min": rng.choice([None, 3, 4, 5]), "max": rng.choice([None, 6, 8]), "as": rng.choice(["type", "field"]),
+                "inputs": ["éé", "ééé", "日本", "abcd", b"abcde", "a\u00e9b\u00e9", "xyz\U0001F600", bytearray(b"abcd")]}
     if rng.random() < 0.55:
         for _ in range(20):
             TS.ENABLE_BARE_CONTAINERS = False  # elements of an untyped container are arbitrary Python objects, not JSON instances
@@ -171,6 +175,50 @@ def first_error(doc, inst):
     if inner is not None and inner is not e:
         return "oneOf", "/".join(str(p) for p in inner.absolute_path), brief(inner.message)
     return str(e.validator), "/".join(str(p) for p in e.absolute_path), msg
+
+
+def run_bytesfmt(case, ctx):
+    """a constrained bytes type that declares a `format` of its own: lengths are counted in bytes by the parser and in characters
+    by a JSON Schema validator, so they must not be published for text that may hold multi-byte characters"""
+    from utype import Rule, Schema, Field, type_transform
+    from utype.parser.rule import LogicalType
+    cd = {"format": case["format"]}
+    if case["min"] is not None:
+        cd["min_length"] = case["min"]
+    if case["max"] is not None:
+        cd["max_length"] = case["max"]
+    try:
+        B = LogicalType("B13", (case["origin"], Rule), dict(cd))
+        T = B if case["as"] == "type" else type(Schema)("S13b", (Schema,), {"__annotations__": {"f": B}, "__module__": "vmon_generated", "__qualname__": "S13b"})
+    except Exception as e:
+        ctx.count("declaration_rejected:" + type(e).__name__)
+        return
+    ctx.count("bytes_rules_with_own_format")
+    wit = {"family": "bytes-rule-with-own-format", "constraints": cd, "origin": case["origin"].__name__, "as": case["as"]}
+    for view in ("input", "output"):
+        o = run(lambda: gen_doc(T, output=(view == "output")))
+        ctx.count("documents")
+        if not o.ok:
+            ctx.violation("C13/generation-failed/bytes-rule", f"JsonSchemaGenerator(bytes rule {cd}) raised {o!r}", wit, sig=("bytesfmt", "gen"))
+            return
+        doc = o.value
+        for x in case["inputs"]:
+            out = run(lambda: type_transform(x, T) if case["as"] == "type" else T(f=x))
+            if not out.ok:
+                continue
+            try:
+                inst = encoded(out.value)
+            except Exception:
+                continue
+            ctx.count("outputs_validated")
+            err = first_error(doc, inst)
+            sig = ("bytesfmt", case["format"], case["min"], case["max"], case["as"], view)
+            if err:
+                ctx.violation(f"C13/output-violates-{view}-schema/{err[0]}/bytes-rule-with-own-format",
+                              f"bytes rule {cd} ({case['as']}): accepted {x!r} is published as {short(inst, 60)} which fails the {view} schema: {err[2][:160]}",
+                              dict(wit, input=repr(x), schema=short(doc, 300)), sig=sig)
+                return
+            ctx.held(sig)
 
 
 def run_T(case, ctx):
@@ -502,6 +550,8 @@ def _field_features(decl, pname):
 
 
 def run_case(case, ctx):
+    if case["fam"] == "bytesfmt":
+        return run_bytesfmt(case, ctx)
     return run_T(case, ctx) if case["fam"] == "T" else run_D(case, ctx)
 
 
